@@ -40,7 +40,7 @@ def gen_plan(seed, i, tier):
                            ('RemoveEmptyPartitions', 2), ('DeleteVerts', 2), ('Restart', 2), ('AddTriangles', 2)])
         st = {'op': op, 'shape': rng.below(4)}
         if op == 'SetPartitions':
-            st.update({'nparts': rng.below(6), 'salt': rng.below(1 << 30), 'unassigned': rng.chance(0.3), 'oor': rng.chance(0.2), 'leave_empty': rng.chance(0.3)})
+            st.update({'nparts': rng.below(6), 'salt': rng.below(1 << 30), 'unassigned': rng.chance(0.3), 'oor': rng.chance(0.25), 'oor_exact': rng.chance(0.5), 'leave_empty': rng.chance(0.3)})
         elif op == 'AddTriangles':
             st['salt'] = rng.below(1 << 30)
         elif op == 'DeletePartitions':
